@@ -101,11 +101,11 @@ func isoScenario(r *hutil.Rng, i int) (atrun.Scenario, Meta) {
 		case 0:
 			return atrun.Step{Op: "exec", SQL: "DELETE FROM t_kv WHERE k = ?", Args: []atrun.Arg{atrun.I(k)}}
 		case 1:
-			return atrun.Step{Op: "exec", SQL: "INSERT INTO t_kv (k, v) VALUES (?, ?)", Args: []atrun.Arg{atrun.I(int64(10 + r.Intn(3))), atrun.I(1)}}
+			return atrun.Step{Op: "exec", SQL: "INSERT INTO t_kv (k, Val) VALUES (?, ?)", Args: []atrun.Arg{atrun.I(int64(10 + r.Intn(3))), atrun.I(1)}}
 		case 2:
-			return atrun.Step{Op: "exec", SQL: "UPDATE t_kv SET v = v + 1 WHERE k <= ?", Args: []atrun.Arg{atrun.I(k)}}
+			return atrun.Step{Op: "exec", SQL: "UPDATE t_kv SET Val = Val + 1 WHERE k <= ?", Args: []atrun.Arg{atrun.I(k)}}
 		}
-		return atrun.Step{Op: "exec", SQL: "UPDATE t_kv SET v = ? WHERE k = ?", Args: []atrun.Arg{atrun.I(int64(r.Intn(90))), atrun.I(k)}}
+		return atrun.Step{Op: "exec", SQL: "UPDATE t_kv SET Val = ? WHERE k = ?", Args: []atrun.Arg{atrun.I(int64(r.Intn(90))), atrun.I(k)}}
 	}
 	var a []atrun.Step
 	add := func(list *[]atrun.Step, n int) {
@@ -134,21 +134,21 @@ func txScenario(r *hutil.Rng, i int) (atrun.Scenario, Meta) {
 	var t table
 	var pool, fresh []atrun.Arg
 	if strKeys {
-		t = table{name: "t_item", pk: []int{0}, cols: []ColMeta{{"code", "str", false}, {"qty", "int", false}, {"note", "str", true}},
-			ddl: "CREATE TABLE t_item (code VARCHAR(16) NOT NULL, qty INT NOT NULL DEFAULT 0, note VARCHAR(32) DEFAULT NULL, PRIMARY KEY (code))"}
+		t = table{name: "t_item", pk: []int{0}, cols: []ColMeta{{"code", "str", false}, {"Qty", "int", false}, {"note", "str", true}},
+			ddl: "CREATE TABLE t_item (code VARCHAR(16) NOT NULL, Qty INT NOT NULL DEFAULT 0, note VARCHAR(32) DEFAULT NULL, PRIMARY KEY (code))"}
 		for _, k := range []string{"a", "ab", "abc", "b", "ba", "c1"} {
 			pool = append(pool, atrun.S(k))
-			t.setup = append(t.setup, fmt.Sprintf("INSERT INTO t_item (code,qty,note) VALUES ('%s',%d,'n')", k, r.Intn(50)))
+			t.setup = append(t.setup, fmt.Sprintf("INSERT INTO t_item (code,Qty,note) VALUES ('%s',%d,'n')", k, r.Intn(50)))
 		}
 		for _, k := range []string{"abcd", "bab", "c", "c10"} {
 			fresh = append(fresh, atrun.S(k))
 		}
 	} else {
-		t = table{name: "t_kv", pk: []int{0}, cols: []ColMeta{{"k", "int", false}, {"v", "int", false}},
-			ddl: "CREATE TABLE t_kv (k INT NOT NULL, v INT NOT NULL DEFAULT 0, PRIMARY KEY (k))"}
+		t = table{name: "t_kv", pk: []int{0}, cols: []ColMeta{{"k", "int", false}, {"Val", "int", false}},
+			ddl: "CREATE TABLE t_kv (k INT NOT NULL, Val INT NOT NULL DEFAULT 0, PRIMARY KEY (k))"}
 		for _, k := range []int64{1, 2, 10, 11, 20, 100} {
 			pool = append(pool, atrun.I(k))
-			t.setup = append(t.setup, fmt.Sprintf("INSERT INTO t_kv (k,v) VALUES (%d,%d)", k, r.Intn(50)))
+			t.setup = append(t.setup, fmt.Sprintf("INSERT INTO t_kv (k,Val) VALUES (%d,%d)", k, r.Intn(50)))
 		}
 		for _, k := range []int64{12, 101, 21, 3, 1000} {
 			fresh = append(fresh, atrun.I(k))
